@@ -41,7 +41,7 @@ theorem parseCall_delegatingBody (mode : InputMode) (hm : mode ≠ .implBlock) (
       some { selfScope := false, callee := tf.sig.ident,
              args := selfArgs tf ++ paramIdents tf.sig.inputs, await := tf.originallyAsync } := by
   have hmode : (mode == InputMode.implBlock) = false := by cases mode <;> simp_all
-  unfold delegatingBody selfArgs
+  unfold delegatingBody selfArgs selfCommaOf
   simp only [hmode, Bool.false_eq_true, if_false, List.nil_append]
   have hargs : ∀ (pre : Toks) (pn : List String),
       parseIdentArgs (pre ++ joinSep [p ','] ((paramIdents tf.sig.inputs).map fun a => [i a])) = some (pn ++ paramIdents tf.sig.inputs) →
